@@ -168,9 +168,13 @@ Definition oracle_ok (c : case) : bool :=
          run with the announced interval (2h, h in ms are reported as h) *)
       let '(_, _, es) := expected_w o StWaitStart StWaitStart (map IFrame fs) in
       let queued := flat_map (fun '(_, _, q, _, _) => q) obs in
-      (list_eqb csend_eqb queued es
-       || (* a failing frame ends the run: what was queued is a prefix *)
-          list_eqb csend_eqb queued (firstn (length queued) es)) &&
+      let failed := existsb (fun '(e, _, _, _, _) => match e with Some _ => true | None => false end) obs in
+      (if failed
+       then (* a failing frame ends the run: what was queued before it is a prefix *)
+            list_eqb csend_eqb queued (firstn (length queued) es)
+       else list_eqb csend_eqb queued es) &&
+      (* the buffer is sealed exactly from the server's Close on *)
+      forallb (fun '(_, st, _, sealed, _) => Bool.eqb sealed (st =? 4)) obs &&
       forallb (fun '(_, _, q, _, hbo) =>
                  forallb (fun s => match s with
                                    | STuneOk _ _ h => option_eqb N.eqb hbo (if h =? 0 then None else Some h)
